@@ -321,7 +321,7 @@ pub fn check(ctx: &Ctx) -> Vec<PartReport> {
             require: vec![],
         },
     ));
-    let n = ctx.cases(8_000, 500_000);
+    let n = ctx.cases(30_000, 500_000);
     out.push(run_part(
         ctx,
         PartSpec {
